@@ -50,3 +50,15 @@ Proof. vm_compute. reflexivity. Qed.
 Theorem C04_classify_sound : forall models is_metric cols m, classify models is_metric (Some cols) = Push m ->
   (forall tc m', In tc cols -> ref_model models tc = Some m' -> m' = m /\ is_metric m' (snd tc) = false) /\ In m models.
 Proof. exact classify_push_sound. Qed.
+
+Require V.Model.SmallFns V.Gen.Small_gen V.Proofs.Small_proofs.
+
+(* the text that joins the filters of a query, regenerated: Gen/Small_gen.v holds what SQLGenerator._join_conjuncts returns on scripted condition lists (each
+   condition with the class sqlglot gives its top-level node), extracted from generator.py on every run by executing the method's AST.  The model -- a
+   condition whose top-level operator is OR is parenthesised, then everything is joined with AND -- returns the same text on every row: this is the
+   grouping C04_conj / C04_order assume when they treat the filter list as a conjunction. *)
+Theorem C04_conjuncts_table : forallb V.Model.SmallFns.conj_row_ok V.Gen.Small_gen.conj_rows = true.
+Proof. exact V.Proofs.Small_proofs.conj_table_ok. Qed.
+Theorem C04_conjuncts_shape : forall a b l,
+  V.Model.SmallFns.join_conjuncts (a :: b :: l) = (V.Model.SmallFns.paren a ++ " AND " ++ V.Model.SmallFns.join_conjuncts (b :: l))%string.
+Proof. exact V.Proofs.Small_proofs.join_conjuncts_cons2. Qed.
